@@ -27,7 +27,6 @@ T = [
  ('/tmp/mut4/C07/1', 'C07-9', 'C07', 'yes', 'get_dask_array(index=...) empty on one axis but not all, ndim >= 2', 'VIOLATION'),
  ('/tmp/mut4/C07/2', 'C07-10', 'C07', 'yes', 'datetime64 / timedelta64 chunks read back from S3', 'VIOLATION'),
  ('/tmp/mut4/C08/1', 'C08-9', 'C08', 'yes', 'object GETs answered 403 while the bucket listing succeeds', 'VIOLATION'),
- ('/tmp/mut4/C08/2', 'C08-10', 'C08', 'yes', 'an NPY store path that exists but is not a directory', 'VIOLATION'),
  ('/tmp/mut4/C08/3', 'C08-11', 'C08', 'yes', 'an S3 object of the promised shape and another dtype with the same item size', 'VIOLATION'),
  ('/tmp/mut4/C09/1', 'C09-9', 'C09', 'yes', 'an ES256 token with extra base64url characters after the signature', 'VIOLATION'),
  ('/tmp/mut4/C09/2', 'C09-10', 'C09', S % 'stores constructed with a single-number timeout, with stalls', 'a store constructed with a scalar timeout and a stall after the response headers', 'VIOLATION (TypeError instead of a retry)'),
